@@ -4,7 +4,7 @@ Implementation of hooks and APIs for outputting log messages.
 
 import traceback
 import inspect
-from threading import Lock
+from threading import Lock, RLock
 from functools import wraps
 from io import IOBase
 import warnings
@@ -37,11 +37,22 @@ class BufferingDestination(object):
 
     def __init__(self):
         self.messages = []
+        # Held while the buffer is handed over to real destinations, so that
+        # messages arriving from other threads at that moment are neither
+        # lost nor delivered ahead of the buffered ones:
+        self._lock = RLock()
+        self._forward = None
 
     def __call__(self, message):
-        self.messages.append(message)
-        while len(self.messages) > 1000:
-            self.messages.pop(0)
+        with self._lock:
+            if self._forward is None:
+                self.messages.append(message)
+                while len(self.messages) > 1000:
+                    self.messages.pop(0)
+                return
+        # Real destinations have been added while the caller was still
+        # delivering to this buffer; pass the message on to them.
+        self._forward(message)
 
 
 class Destinations(object):
@@ -79,12 +90,18 @@ class Destinations(object):
 
         @param logger: The ``ILogger`` that wrote the message, if any.
         """
+        self._deliver(self._destinations, message, logger)
+
+    def _deliver(self, destinations, message, logger=None):
+        """
+        Deliver a message to the given destinations.
+        """
         message.update(self._globalFields)
         errors = []
         is_destination_error_message = (
             message.get("message_type", None) == DESTINATION_FAILURE
         )
-        for dest in self._destinations:
+        for dest in destinations:
             try:
                 dest(message)
             except Exception as e:
@@ -130,18 +147,23 @@ class Destinations(object):
         @param destinations: A list of callables that takes message
             dictionaries.
         """
-        buffered_messages = None
         if not self._any_added:
             # These are first set of messages added, so we need to clear
             # BufferingDestination:
             self._any_added = True
-            buffered_messages = self._destinations[0].messages
-            self._destinations = []
-        self._destinations.extend(destinations)
-        if buffered_messages:
-            # Re-deliver buffered messages:
-            for message in buffered_messages:
-                self.send(message)
+            buffer = self._destinations[0]
+            destinations = list(destinations)
+            with buffer._lock:
+                # Re-deliver buffered messages (and whatever gets logged
+                # while doing so), then switch over in a single step:
+                while buffer.messages:
+                    buffered_messages, buffer.messages = buffer.messages, []
+                    for message in buffered_messages:
+                        self._deliver(destinations, message)
+                buffer._forward = self.send
+                self._destinations = destinations
+        else:
+            self._destinations.extend(destinations)
 
     def remove(self, destination):
         """
